@@ -133,7 +133,11 @@ func VerifC05Atomic(h *verifh.H) {
 	}
 	post1 := mClone(pre)
 	post1.write("d", b1)
-	twoWriters := h.Choice("twoWriters", 2) == 1
+	tw := h.Choice("twoWriters", 3) // 0: writer + reader, 1: two writers on one entity, 2: two writers introducing different new ids
+	twoWriters := tw != 0
+	if tw == 2 {
+		b2 = []*mVersion{{ID: "ns0:e3", Props: map[string]string{"ns0:v": "y"}, Refs: map[string][]string{}}}
+	}
 	ds := hs.dss["d"]
 	var seen []string
 	h.SymbolicTxns() // every Badger transaction start of /repo code is a scheduling point too
@@ -163,6 +167,13 @@ func VerifC05Atomic(h *verifh.H) {
 		s21.write("d", b1)
 		got := vObsCore(h, hs.hub, "d")
 		h.Assert(got == mObsCore(s12, "d") || got == mObsCore(s21, "d"), "two concurrent batches leave the dataset as some serial order would :: got="+got)
+		// ... including its catalogue entry: both batches were acknowledged, the items counter
+		// counts every distinct id they stored
+		wantItems := "2"
+		if tw == 2 {
+			wantItems = "3"
+		}
+		h.Assert(vItems(h, hs.hub, "d") == wantItems, "after two acknowledged concurrent batches the dataset's items counter counts every distinct id stored :: items="+vItems(h, hs.hub, "d")+" want="+wantItems)
 	} else {
 		preList := "list=" + vJoin(vSorted(mListRender(pre, "d")))
 		postList := "list=" + vJoin(vSorted(mListRender(post1, "d")))
